@@ -377,6 +377,27 @@ def check_sim(case):
                         % ({t: sorted(v) for t, v in ucut.items() if v}, where), tags)
         if not run.ok:
             return _judge_stopped_run(spec, run, ucut, hw, tags, len(parts) > 1, wn)
+    rerun = case.get('rerun')
+    if rerun and len(parts) == 1:
+        # history: the run above ended (possibly with a part cut off); reset_initial_values(); simulate again with a new or
+        # with the same simulator object.  Whatever the first run left behind must not make connected junctions zero.
+        tags.add('rerun_after_reset:' + rerun)
+        wn.reset_initial_values()
+        run2 = S.run_wntr(wn, hw_approx=hw, sim=run.sim if rerun == 'same' else None)
+        where = ' [second run after reset_initial_values(), %s simulator object]' % rerun
+        if run2.exception is not None:
+            return fail(exc_bucket(run2.exception, 'rerun_raises'), 'the first run completed, the second raised %r%s'
+                        % (run2.exception, where), tags)
+        if len(run2.times) == 0 or not run2.ok:
+            if run.ok:
+                return fail('rerun_stops', 'the first run completed, the second stopped (%s)%s' % (run2.warnings[-1:], where), tags)
+            return inconclusive('second run did not converge either', tags)
+        bad, st_ = judge_rows(spec, run2, tags)
+        if bad:
+            return fail('rerun/' + bad[0], bad[1] + where, tags)
+        bal = balance_check(spec, run2, tags)
+        if bal:
+            return fail('rerun/' + bal[0], bal[1] + where, tags)
     nontrivial = stats.get('iso_junction_rows', 0) > 0 and stats.get('reach_rows', 0) > 0
     return passed(nontrivial, tags)
 
@@ -638,6 +659,8 @@ def sim_case(draw, tier='quick'):
     case = {'mode': 'sim', 'net': spec}
     if nsteps >= 2 and draw(st.integers(0, 4)) == 0:
         case['pause'] = hyd * draw(st.integers(1, nsteps - 1))
+    elif draw(st.integers(0, 3)) == 0:
+        case['rerun'] = draw(st.sampled_from(['new', 'same']))
     return case
 
 
@@ -1087,6 +1110,20 @@ def enumerate_cases(tier):
             yield {'mode': 'sim', 'net': s[2], 'pause': s[1]}
         else:
             yield {'mode': 'sim', 'net': s}
+    # a run that ends with a zone cut off, then reset_initial_values() and a second run in which the zone is connected
+    # from the start (new and same simulator object)
+    for rr in ('new', 'same'):
+        s = _base(_opts(4 * 3600, 3600))
+        s['reservoirs'] = [{'name': 'R1', 'head': 50.0, 'pat': None}]
+        s['junctions'] = [_junction('J1', 10.0), _junction('J2', 8.0), _junction('J3', 6.0)]
+        s['pipes'] = [_pipe('L1', 'R1', 'J1'), _pipe('L2', 'J1', 'J2'), _pipe('L3', 'J2', 'J3')]
+        s['controls'] = [_ctl(2 * 3600, 'L2', 'CLOSED')]
+        yield {'mode': 'sim', 'net': s, 'rerun': rr}
+        s2 = copy.deepcopy(s)
+        s2['pipes'].append(_pipe('L4', 'J1', 'J3', 'CLOSED'))      # a district that stays cut off behind two closed pipes
+        s2['pipes'][1]['status'] = 'CLOSED'
+        s2['controls'] = []
+        yield {'mode': 'sim', 'net': s2, 'rerun': rr}
     # all multigraphs on source 0 + junctions 1, 2 with 0..2 links per pair and every open/closed pattern
     opts = [[], ['OPEN'], ['CLOSED'], ['OPEN', 'OPEN'], ['OPEN', 'CLOSED'], ['CLOSED', 'OPEN'], ['CLOSED', 'CLOSED']]
     pairs = [(0, 1), (0, 2), (1, 2)]
@@ -1108,7 +1145,7 @@ def summarize(case):
     if case.get('mode') == 'graph':
         return case
     spec = case['net']
-    return {'mode': 'sim', 'pause': case.get('pause'), 'opts': spec['opts'], 'n_junctions': len(spec['junctions']),
+    return {'mode': 'sim', 'pause': case.get('pause'), 'rerun': case.get('rerun'), 'opts': spec['opts'], 'n_junctions': len(spec['junctions']),
             'sources': [t['name'] for t in spec['tanks'] + spec['reservoirs']],
             'links': [[l[0], l[1], l[2], l[3], l[4]['status']] for l in S.links_of(spec)],
             'controls': [[c['at'], c['link'], c['value']] for c in spec['controls']]}
